@@ -27,6 +27,7 @@ func init() {
 			{ID: "C17-R1", Title: "run-time fields and wire fields survive the round trip", Floor: 30, Run: c17r1},
 			{ID: "C17-R2", Title: "constant type tables agree (compiler, marshal, unmarshal, VM)", Floor: 12, Run: c17r2},
 			{ID: "C17-R4", Title: "symbol-table id lookups respect the separator", Floor: 1, Run: c17r4},
+			{ID: "C17-R5", Title: "the loader links functions and code objects by id", Floor: 2, Run: c17r5},
 		},
 	})
 }
